@@ -158,6 +158,38 @@ func runC33(c *Ctx) {
 		c.Check(fromItems, "relocate/failures-from-collector", "the event is built from the shared failure collector that every share writes to", c.P.Pos(rl.Decl.Pos()), "")
 	})
 
+	c.Rule("snapshot-before-release", func() {
+		// duplicate NodeLeft suppression relies on: the snapshot in the cluster store is visible only while the job is registered
+		del := func(info *types.Info) Match {
+			return func(n ast.Node) bool {
+				call, ok := n.(*ast.CallExpr)
+				if !ok {
+					return false
+				}
+				cal := callee(info, call)
+				return cal != nil && cal.Name() == "DeletePeerState"
+			}
+		}
+		n := 0
+		for _, name := range []string{"relocationWorker.finish", "relocator.abortRelocation"} {
+			fn := c.TryFunc("actor", name)
+			if fn == nil {
+				continue
+			}
+			f := c.NewFlow(fn)
+			rel := f.CallTo(end, iEnd)
+			if len(f.Find(del(f.Info))) == 0 || len(f.Find(rel)) == 0 {
+				continue
+			}
+			n++
+			w := f.MayReach(f.Find(rel), nil, del(f.Info))
+			c.Check(w == nil, "delete≺release/"+name, "the departed node's stored snapshot is removed before its relocation job is released (a duplicate NodeLeft arriving in between finds either the job or no snapshot)", c.P.Pos(fn.Decl.Pos()), "the job is released while the snapshot is still stored: "+f.describe(w))
+		}
+		if n < 2 {
+			c.Undecided("delete≺release/sites", "completion and abort paths found", "-", "found "+itoa(n))
+		}
+	})
+
 	c.Rule("worker-death", func() {
 		ht := c.Func("actor", "relocator.handleTerminated")
 		f := c.NewFlow(ht)
